@@ -149,7 +149,9 @@ theorem FieldsIn.set {P : Atom → Prop} {fs : Fields} {k : String} {v : Ty}
 theorem mergeOne_atoms {P : Atom → Prop} (hP : AClosed P) {c e first fs fs' name field}
     (h : mergeOne c e first fs name field = .ok fs') (hfs : FieldsIn P fs) (hf : field.atomsIn P) :
     FieldsIn P fs' := by
-  rcases mergeOne_cases h with ⟨_, h2⟩ | ⟨orig, hg, h2 | ⟨oi, ho, h2⟩ | ⟨_, h2⟩⟩
+  rcases mergeOne_cases h with ⟨_, h2⟩ | ⟨orig, hg, h2 | ⟨oi, ho, h2⟩ | ⟨_, h2⟩ | ⟨_, _, h2⟩⟩
+  rotate_left 4
+  · subst h2; exact hfs.set hf
   · subst h2
     apply hfs.set
     split
